@@ -193,8 +193,15 @@ func (g *gateAlg) Sign(m []byte) ([]byte, error) {
 	return g.inner.Sign(m)
 }
 
-func finishFull(id string, sp *sxSpec, kc *keyCert, se *signedEx, times [][2]int64) {
-	ev := map[string]interface{}{"case": id, "kind": "full", "xin": se.xin, "rs": sp.rs, "signer": signerRec(sp, kc), "signerr": se.err}
+func finishFull(id string, sp *sxSpec, kc *keyCert, se *signedEx, times [][2]int64) []byte {
+	return finishFullG(id, sp, kc, se, times, false)
+}
+
+// regen: the exchange was not built by NewExchange + MiEncodePayload but obtained from ReadExchange, edited and signed
+// again (no MI step to judge: the payload and its digest header are whatever the object holds)
+func finishFullG(id string, sp *sxSpec, kc *keyCert, se *signedEx, times [][2]int64, regen bool) []byte {
+	var file []byte
+	ev := map[string]interface{}{"case": id, "kind": "full", "regen": regen, "xin": se.xin, "rs": sp.rs, "signer": signerRec(sp, kc), "signerr": se.err}
 	e := se.e
 	ev["x"] = xOf(e)
 	empty := []int{}
@@ -220,6 +227,7 @@ func finishFull(id string, sp *sxSpec, kc *keyCert, se *signedEx, times [][2]int
 		ev["writeerr"] = werr != nil
 		if werr == nil {
 			ev["file"] = ints(fb.Bytes())
+			file = fb.Bytes()
 			e2, rerr := sxg.ReadExchange(bytes.NewReader(fb.Bytes()))
 			ev["readerr"] = rerr != nil
 			if rerr == nil {
@@ -232,6 +240,72 @@ func finishFull(id string, sp *sxSpec, kc *keyCert, se *signedEx, times [][2]int
 	}
 	ev["verifs"] = verifs
 	emit(ev)
+	return file
+}
+
+// secondGeneration: an exchange READ from a file is an object like any other: a program edits it (status, a response
+// header, the payload, for b1 the URL / for b1 and b2 the request part), signs it again and writes it.  What is written is
+// the edited exchange (judged exactly like a first-generation one), not what the object was parsed from.
+func secondGeneration(id string, sp *sxSpec, kc *keyCert, file []byte, r *rand.Rand) {
+	if len(file) == 0 {
+		return
+	}
+	for variant := 0; variant < 6; variant++ {
+		e, err := sxg.ReadExchange(bytes.NewReader(file))
+		if err != nil {
+			return
+		}
+		sp2 := *sp
+		sp2.shared = false
+		sp2.date, sp2.expires = sp.date+10, sp.expires+10
+		regen := true
+		var xin xrec
+		switch variant {
+		case 0:
+			e.ResponseStatus = map[int]int{200: 203, 203: 200}[e.ResponseStatus]
+			if e.ResponseStatus == 0 {
+				e.ResponseStatus = 200
+			}
+		case 1:
+			e.ResponseHeaders.Set("X-Second-Generation", randValue(r, 1+r.Intn(20)))
+		case 2:
+			for k := range e.ResponseHeaders {
+				if lk := strings.ToLower(k); lk != "digest" && lk != "mi-draft2" && lk != "content-encoding" && lk != "content-type" && lk != "cache-control" {
+					e.ResponseHeaders.Del(k)
+					break
+				}
+			}
+		case 3:
+			// a new payload: the old digest / encoding headers go, MiEncodePayload is applied again
+			e.ResponseHeaders.Del("Digest")
+			e.ResponseHeaders.Del("MI-Draft2")
+			e.ResponseHeaders.Del("Content-Encoding")
+			e.Payload = randBytes(r, []int{0, 1, 17, 300}[r.Intn(4)])
+			sp2.rs = []int{1, 16, 64}[r.Intn(3)]
+			xin = xOf(e)
+			if err := e.MiEncodePayload(sp2.rs); err != nil {
+				finishFullG(fmt.Sprintf("%s-g%d", id, variant), &sp2, kc, &signedEx{e: e, xin: xin, err: "mi"}, nil, false)
+				continue
+			}
+			regen = false
+		case 4:
+			if e.Version != version.Version1b1 {
+				continue
+			}
+			e.RequestURI += "second"
+		case 5:
+			if e.Version == version.Version1b3 {
+				continue
+			}
+			e.RequestHeaders.Set("X-Second-Request", "1")
+		}
+		if regen {
+			xin = xOf(e)
+		}
+		se := &signedEx{e: e, xin: xin}
+		signEx(se, &sp2, kc, nil)
+		finishFullG(fmt.Sprintf("%s-g%d", id, variant), &sp2, kc, se, instants(&sp2)[1:4], regen)
+	}
 }
 
 func instants(sp *sxSpec) [][2]int64 {
@@ -271,7 +345,10 @@ func sxgFull(args []string) error {
 			if it.se.err == "" {
 				signEx(it.se, it.sp, it.kc, nil)
 			}
-			finishFull(it.id, it.sp, it.kc, it.se, instants(it.sp))
+			file := finishFull(it.id, it.sp, it.kc, it.se, instants(it.sp))
+			if thorough || i%4 == 0 {
+				secondGeneration(it.id, it.sp, it.kc, file, r)
+			}
 		}
 	}
 	// fixed instances (not sampled): one feature each on an otherwise plain exchange, every version
